@@ -1370,7 +1370,6 @@ func (e *lenEng) counterField(fa *ssa.FieldAddr) bool {
 	return good
 }
 
-
 // lengthFloors: atoms (lengths) that a dominating test has bounded from below.
 func (e *lenEng) lengthFloors(at *ssa.BasicBlock) map[string]int64 {
 	out := map[string]int64{}
